@@ -401,6 +401,8 @@ def parse_answer(ans):
         conv = None
         if " conv=" in body:
             body, conv = body.rsplit(" conv=", 1)
+        if " msg=" not in body:
+            body += " msg=none"         # (a synthetic or truncated answer: outcome only)
         sent, msg = body.split(" msg=", 1)
         r["sent"] = parse_kv(sent.split(" ")[1:])
         mt = msg.split(" ")
